@@ -14,7 +14,7 @@ DESCRIPTION = {
              "written to the router decode to exactly one terminal message with that id - a non-progress YIELD carrying the return value, or ERROR(INVOCATION,id,uri) with "
              "wamp.error.invalid_payload / payload_size_exceeded in the two send-failure cases - never zero, never two; progressive YIELDs only before it and only if "
              "receive_progress was set; the endpoint observed exactly the caller's args/kwargs plus CallDetails iff requested; no message exceeds the announced limit.  "
-             "Each procedure is registered as a plain callable, a bound method, or through register(obj) with a @wamp.register-decorated method of a normal / empty-container / __bool__-false object: the method must be invoked with exactly that object as self.  Style 'checked' registers with check_types=True.  Enumerated job: encrypted invocations whose endpoint returns / raises / emits a value the payload codec cannot serialize still get exactly one terminal reply.  WebSocket transports also run with outgoing auto-fragmentation.  Non-trivial = pending endpoint + INTERRUPT, a send-failure behaviour, or >=2 concurrent invocations; distinct by (transport, serializer, history). Endpoint behaviour 'chained': a Deferred that has already fired and waits on a Deferred returned by one of its callbacks (asyncio: a Task awaiting the inner future) - pending until the inner step completes, and an INTERRUPT must cancel it. Behaviour 'unserializable-big': a result that is neither serializable nor within the transport's size limit - one ERROR (invalid_payload or payload_size_exceeded) is still required. Half of the progress endpoints call the details.progress they kept once more after returning: no progressive YIELD may follow the terminal reply."),
+             "Each procedure is registered as a plain callable, a bound method, or through register(obj) with a @wamp.register-decorated method of a normal / empty-container / __bool__-false object: the method must be invoked with exactly that object as self.  Style 'checked' registers with check_types=True.  Enumerated job: encrypted invocations whose endpoint returns / raises / emits a value the payload codec cannot serialize still get exactly one terminal reply.  WebSocket transports also run with outgoing auto-fragmentation.  Non-trivial = pending endpoint + INTERRUPT, a send-failure behaviour, or >=2 concurrent invocations; distinct by (transport, serializer, history). Endpoint behaviour 'chained': a Deferred that has already fired and waits on a Deferred returned by one of its callbacks (asyncio: a Task awaiting the inner future) - pending until the inner step completes, and an INTERRUPT must cancel it. Behaviour 'unserializable-big': a result that is neither serializable nor within the transport's size limit - one ERROR (invalid_payload or payload_size_exceeded) is still required. Half of the endpoints that were given a details.progress call it once more after the invocation has been answered - by a value, an error, or the fallback ERROR for a result that could not be sent: no progressive YIELD may follow the terminal reply."),
     "assumptions": ["the transport stays up for the whole history (transport loss is C06/C13)"],
 }
 
